@@ -4590,6 +4590,41 @@ where
         self.as_triangulation().vertex_coords(v)
     }
 
+    /// Maps a vertex into the fundamental domain of the triangulation's global topology.
+    ///
+    /// Euclidean triangulations return the vertex unchanged. Toroidal triangulations wrap every
+    /// coordinate into `[0, period)` exactly like `DelaunayTriangulationBuilder::toroidal` does for
+    /// the batch input, so incremental insertions land where the documentation says they do.
+    fn canonicalize_vertex_for_topology(
+        &self,
+        vertex: Vertex<K::Scalar, U, D>,
+    ) -> Result<Vertex<K::Scalar, U, D>, InsertionError> {
+        use crate::geometry::point::Point;
+        use crate::geometry::traits::coordinate::Coordinate;
+        use crate::topology::traits::global_topology_model::GlobalTopologyModel;
+
+        if matches!(self.tri.global_topology, GlobalTopology::Euclidean) {
+            return Ok(vertex);
+        }
+        let model = self.tri.global_topology.model();
+        let mut coords = *vertex.point().coords();
+        model
+            .canonicalize_point_in_place(&mut coords)
+            .map_err(|error| {
+                InsertionError::Construction(TriangulationConstructionError::GeometricDegeneracy {
+                    message: format!(
+                        "Failed to canonicalize inserted vertex {:?}: {error}",
+                        vertex.point().coords(),
+                    ),
+                })
+            })?;
+        Ok(Vertex::new_with_uuid(
+            Point::new(coords),
+            vertex.uuid(),
+            vertex.data,
+        ))
+    }
+
     fn ensure_spatial_index_seeded(&mut self) {
         if self.spatial_index.is_some() {
             return;
@@ -4695,6 +4730,7 @@ where
     where
         K::Scalar: ScalarSummable,
     {
+        let vertex = self.canonicalize_vertex_for_topology(vertex)?;
         self.ensure_spatial_index_seeded();
 
         // Fully delegate to Triangulation layer
@@ -4809,6 +4845,7 @@ where
     where
         K::Scalar: ScalarSummable,
     {
+        let vertex = self.canonicalize_vertex_for_topology(vertex)?;
         self.ensure_spatial_index_seeded();
 
         // Transactional guard: post-steps (flip repair and/or global Delaunay checks) can fail.
